@@ -111,6 +111,7 @@ class StmtMixin:
                 for g in held:
                     s1.assume(g)
                 s1.ghost['__yields__'] = s1.ghost.get('__yields__', 0) + 1
+                s1.ghost['__last_yield__'] = v      # ghost('__last_yield__') in a yield assert: the value yielded before this one
                 yield s1, NORMAL
             return
         if isinstance(node, ast.Expr) and isinstance(node.value, ast.YieldFrom):
@@ -140,6 +141,7 @@ class StmtMixin:
                             for g in held:
                                 s1.assume(g)
                             s1.ghost['__yields__'] = s1.ghost.get('__yields__', 0) + 1
+                            s1.ghost['__last_yield__'] = it
                     elif isinstance(v.t, TList):
                         qi = z3.Int(fresh_name('yf'))
                         it = Val(v.t.elem, z3.Select(list_arr(v), qi))
@@ -157,6 +159,15 @@ class StmtMixin:
                         for g in held:
                             s1.assume(g)
                         s1.ghost['__yields__'] = s1.ghost.get('__yields__', 0) + 1
+                        # after a delegated list the previous value is its last element, or unchanged when it is empty
+                        prev = s1.ghost.get('__last_yield__')
+                        lastv = Val(v.t.elem, z3.Select(list_arr(v), list_len(v) - 1))
+                        if getattr(c, 'yield_type', None) is not None:
+                            lastv = self.coerce(lastv, c.yield_type)
+                        if prev is not None and prev.t == lastv.t:
+                            s1.ghost['__last_yield__'] = Val(lastv.t, z3.If(list_len(v) > 0, lastv.e, prev.e))
+                        else:
+                            s1.ghost['__last_yield__'] = self.fresh_val(s1, lastv.t, 'lasty')
                     else:
                         raise OutOfSubset('yield from %s in a generator with yield asserts' % v.t, node)
                 yield s1, NORMAL
@@ -550,6 +561,9 @@ class StmtMixin:
             st.alloc = na
         for g in sorted(set(globs) | set(implicit.values())):
             st.glob[g] = self.fresh_val(st, self.m.globals[g], 'G_' + g.replace('.', '_'))
+        # the previously yielded value is unknown at the head of a loop whose body yields
+        if '__last_yield__' in st.ghost and any(isinstance(x, (ast.Yield, ast.YieldFrom)) for b in body_nodes for x in ast.walk(b)):
+            st.ghost['__last_yield__'] = self.fresh_val(st, st.ghost['__last_yield__'].t, 'lasty')
         return names
 
     def check_inv(self, st, lc, k, line, when, old):
